@@ -36,6 +36,13 @@ def Sl.size (s : Sl) : Nat := sliceLen s.start s.stop s.step
 /-- The value of the slice at index `i` of its input. -/
 def Sl.at (s : Sl) (i : Nat) : Nat := s.start + s.step * i
 
+/-- `Slice.eager_subs` with a `Variable`: a pure renaming — `Slice(name, start, stop, step, dtype)` again (the
+    constructor's normalisation is applied once more). -/
+def sliceRename (s : Sl) : Sl := mkSlice s.start s.stop s.step s.dtype
+
+/-- A tempting "rebuild from the size" variant, `Slice(name, start, start + size, step, dtype)`: right only for step 1. -/
+def sliceRenameBySize (s : Sl) : Sl := mkSlice s.start (s.start + s.size) s.step s.dtype
+
 /-- `Slice.eager_subs` with a `Slice` index, HEAD. -/
 def sliceIntoSlice (outer inner : Sl) : Sl :=
   mkSlice (outer.start + outer.step * inner.start) (outer.start + outer.step * inner.stop)
